@@ -77,6 +77,7 @@ fn parts(id: &'static str, tier: Tier, seed: u64) -> Vec<Part> {
             e2_part(id, tier),
             e3_part(id),
             Part { rule: props_e2::C06_XDEV_RULE.to_string(), run: Box::new(|ctx, acc| props_e2::run_c06_xdev(ctx, acc)) },
+            Part { rule: props_e2::C06_PL_RULE.to_string(), run: Box::new(|ctx, acc| props_e2::run_c06_powerloss(ctx, acc)) },
         ],
         "C09" => vec![e2_part(id, tier)],
         "C03" => vec![
@@ -179,6 +180,7 @@ fn replay_case(id: &'static str, engine: &str, case: serde_json::Value) -> R<Cas
     match engine {
         "E1" => props_seq::replay_seq(id, case),
         "E2" => props_e2::replay_e2(id, case),
+        "E2PL" => props_e2::replay_e2_pl(case),
         "E2F" => props_e2::replay_c14(case),
         "E3" => props_e3::replay_e3(id, case),
         "E3E" => props_e3::replay_e3_enum(id, case),
